@@ -292,7 +292,7 @@ STYLES: dict[str, dict[str, dict[str, CSSdef]]] = {
             "text_fill": COLORS["black"],
         },
         "Box.Text": {
-            "stroke": "transparent",
+            "stroke": "none",
         },
         "Edge": {
             "stroke-width": 1,
